@@ -264,9 +264,33 @@ func c08(c *Ctx) {
 	}
 
 	// check one 0x0200 case against the standard's prediction
+	// every report is also parsed on a receiver that has just parsed the PREVIOUS report of the run (the server keeps
+	// one handler value per command and connection): the decoded report may not depend on it - flags, items and
+	// times of the earlier report must not survive.  Implementation-only (replay op seq0200 <previous> <this>).
+	var prev0200, prevAllSet []byte
+	reused := func(kind string, prev, body []byte, fresh string) {
+		if prev == nil {
+			return
+		}
+		if again := LocParseSeq(kind, [][]byte{prev, body}); again != fresh {
+			c.Violate(Violation{Signature: "C08/reused-receiver-" + kind, What: "a report decodes differently on a receiver that parsed another report before",
+				Input: "seq" + kind + " " + Hx(prev) + " " + Hx(body), Observed: again, Required: fresh})
+		}
+	}
 	check0200 := func(what string, block []byte, items []item) {
 		body, want, ok := stdReport(block, items)
 		ans := c.Do("p0200 "+Hx(body), len(body) >= 28)
+		reused("0200", prev0200, body, ans)
+		if prevAllSet == nil { // a report with every alarm and status bit set and every standard item present
+			all := append([]byte{0xff, 0xff, 0xff, 0xff, 0xff, 0xff, 0xff, 0xff}, body[8:min(len(body), 28)]...)
+			if len(all) == 28 {
+				prevAllSet = all
+			}
+		}
+		reused("0200", prevAllSet, body, ans)
+		if strings.HasPrefix(ans, "ok ") {
+			prev0200 = body
+		}
 		c.Count(what + ":" + firstWord(ans))
 		exp := "err 4"
 		if ok {
